@@ -55,15 +55,32 @@ def numeric_list(td):
     return out
 
 
+REUSE = [0]
+REUSED_DIR = os.path.join(tempfile.gettempdir(), "verif_c18_reused")
+
+
 def roundtrip(ctx, tag, res):
     import csep
+    # every other result of a case goes to ONE file name per process that is overwritten each time (a user's results.json): what is
+    # loaded is what was written last
+    REUSE[0] += 1
     with tempfile.TemporaryDirectory() as d:
-        p = os.path.join(d, "result.json")
+        if REUSE[0] % 2:
+            os.makedirs(REUSED_DIR, exist_ok=True)
+            p = os.path.join(REUSED_DIR, "result_%d.json" % os.getpid())
+            ctx.count("results_written_to_a_reused_file_name")
+        else:
+            p = os.path.join(d, "result.json")
         o = call(csep.write_json, res, p)
         if not o.ok:
             ctx.unexpected(o, "write_json:" + tag)
             return
         o = call(csep.load_evaluation_result, p)
+        if p.startswith(REUSED_DIR):
+            try:
+                os.remove(p)
+            except OSError:
+                pass
     if not o.ok:
         ctx.unexpected(o, "load_evaluation_result:" + type(res).__name__)
         return
